@@ -23,7 +23,7 @@ BUDGET = {'quick': 70, 'thorough': 1500}
 
 # inquiry=False: size/lbound/ubound of a variable that is also read in the same expression is a listed finding of C26
 # (and one listed manifestation here, kept alive by its replay); excluded by construction in the search
-PROFILE = dict(dc.PROFILE, inquiry=False)
+PROFILE = dict(dc.PROFILE)   # (inquiry functions are generated again: the mem-query defect was repaired in /repo, b8e835a)
 EXCLUDED_INQUIRY = 'size/lbound/ubound references not generated (known: mem-query-argument)'
 
 
@@ -340,7 +340,6 @@ def check_case(case, ctx):
 
 def search_case(case, ctx):
     ctx.exclude(dc.EXCLUDED_BY_CONSTRUCTION)
-    ctx.exclude(EXCLUDED_INQUIRY)
     check_case(case, ctx)
 
 
